@@ -13,7 +13,8 @@ From Got Require Import Base Race.
 Local Open Scope string_scope.
 
 Definition ri_access_table : list string := [
-  "ants/pool_impl.go:poolImpl.Send|if( len:taskChan cap:taskChan ){ if( ){ C:onError } C:newTaskDiscard ret } C:newTaskCallback select{ case{ send:taskChan } case{ recv:closeChan } } ret";
+  "ants/pool_impl.go:poolImpl.Send|ret";
+  "ants/pool_impl.go:poolImpl.send|if( len:taskChan cap:taskChan ){ if( ){ C:onError } C:newTaskDiscard ret } C:newTaskCallback select{ case{ send:taskChan } case{ recv:closeChan } } ret";
   "ants/pool_impl.go:poolImpl.goDispatchInnerCallback|for{ select{ case{ recv:innerCallbackChan C:callback } case{ recv:closeChan ret } } }";
   "ants/pool_impl.go:poolImpl.goDispatchTask|for{ select{ case{ recv:taskChan C:run } case{ recv:closeChan ret } } }";
   "ants/pool_impl.go:poolImpl.sendInnerCallback|select{ case{ send:innerCallbackChan } case{ recv:closeChan } }";
